@@ -64,6 +64,14 @@ def payload_bytes(kind, size):
             out += b"%06d;abcdefgh\r\n" % i
             i += 1
         return bytes(out)
+    if kind == "cr":
+        # lone carriage returns inside and at the end of lines (progress-bar style output)
+        out = bytearray()
+        i = 0
+        while len(out) < size:
+            out += b"%06d;ab\rcd" % i + (b"\r" if i % 3 == 0 else b"\n")
+            i += 1
+        return bytes(out)
     if kind == "utf8":
         unit = "é中\U0001f41a".encode()  # 2-, 3- and 4-byte characters: straddle every boundary
         out = bytearray()
@@ -133,6 +141,14 @@ def setup(wd):
 
     XSH.aliases["walias"] = mk_alias("source")
     XSH.aliases["falias"] = mk_alias("filter")
+
+    def nalias(args, stdin=None, stdout=None, stderr=None):
+        """A callable alias that produces its output by running a command itself (a wrapper alias)."""
+        ns = {}
+        XSH.execer.exec(f"_q = ![{sys.executable} {wd}/writer.py {' '.join(args)} 0 0]\n", glbs=ns, locs=ns, filename="<verif-c06-nested>")
+        return ns["_q"].rtn
+
+    XSH.aliases["nalias"] = nalias
     XSH.env["XONSH_SUBPROC_RAISE_ERROR"] = False
     XSH.env["XONSH_SUBPROC_CMD_RAISE_ERROR"] = False
 
@@ -236,6 +252,13 @@ def run(ctx, scn):
         rc = 0
     elif stage == "proc|falias":
         last = f"{sys.executable} {wd}/writer.py {wargs} 0 0 | falias {ppath} {chunk} 0 {rc}"
+    elif stage == "nalias":
+        last = f"nalias {wargs}"
+    elif stage == "salias":
+        # a string alias holding a chain (an ExecAlias): both commands' output belongs to the capture
+        XSH.aliases["salias"] = f"{sys.executable} {wd}/writer.py {ppath} {chunk} 0 0 0 0 && {sys.executable} {wd}/writer.py {wargs} 0 0"
+        last = "salias"
+        raw = raw + raw
     elif stage == "proc|cat|cat":
         last = f"{sys.executable} {wd}/writer.py {wargs} 0 0 | cat | cat"
         rc = 0
